@@ -278,6 +278,13 @@ class Gen:
             name = "PSD" if fa["psd"] else ("SelfAdjoint" if fa["sym"] else g.choice(["PSD", "SelfAdjoint"]))
             if fa.get("unitary") and g.random() < 0.5:
                 name = g.choice(["Unitary", "Stiefel"])
+            u = g.random()
+            if u < 0.25:
+                # a second declaration on top of a first one (weaker below stronger, or unrelated)
+                a = {"k": "ann", "name": g.choice(["SelfAdjoint", "Stiefel", "PSD", "Unitary"]), "of": a}
+                name = g.choice(["PSD", "Unitary", "SelfAdjoint", "Stiefel"])
+            elif u < 0.4:
+                name = g.choice(["PSD", "Unitary", "SelfAdjoint", "Stiefel"])
             r = {"k": "ann", "name": name, "of": a}
             fl["psd"], fl["sym"] = name == "PSD", name in ("PSD", "SelfAdjoint")
             fl["less"], fl["probe"] = fa["less"], fa["probe"]
@@ -324,11 +331,11 @@ class Gen:
         A = {"slot": slot}
         dt = fl["dt"]
         pbar = cfg["pbar"] and g.random() < 0.6
-        menu = ["matvec", "matvec", "matmat", "rmatvec", "to_dense", "densify", "flatten", "isa"]
+        menu = ["matvec", "matvec", "matmat", "rmatvec", "rmatvec", "rmatmat", "to_dense", "densify", "flatten", "isa"]
         if sq:
             menu += ["diag_exact", "diag_default", "trace_default", "trace_exact", "diag_hutch", "solve", "solve",
                      "inv", "pinv_solve", "logdet", "slogdet", "unary", "unary_apply", "eig", "eigmax_d", "eigmin_d",
-                     "svd", "plu", "gmres", "arnoldi", "power_iteration", "eig_arnoldi"]
+                     "svd", "plu", "gmres", "arnoldi", "power_iteration", "eig_arnoldi", "rsolve", "rsolve"]
             if fl["psd"]:
                 menu += ["solve_cg", "solve_cg", "solve_chol", "cholesky", "cg", "cg", "nystrom", "logdet_lh",
                          "unary_lanczos", "unary_lanczos"]
@@ -349,6 +356,14 @@ class Gen:
         elif fn == "matmat":
             st["fn"] = "matvec"
             a["x"] = self.vec(fl["c"], g.choice([1, 2, 3]), dtype=dt)
+        elif fn == "rmatmat":
+            st["fn"] = "rmatvec"
+            a["x"] = self.vec(g.choice([1, 2, 3]), fl["r"], dtype=dt)
+        elif fn == "rsolve":
+            a["b"] = self.vec(n, dtype=dt) if g.random() < 0.5 else self.vec(2, n, dtype=dt)
+            alg = g.choice([None, None, "LU", "Cholesky" if fl["psd"] else "LU"])
+            if alg:
+                a["alg"] = alg
         elif fn in ("diag_exact", "diag_default"):
             a["k"] = g.choice([0, 0, 1, -1]) if n > 1 else 0
         elif fn == "diag_hutch":
@@ -470,6 +485,11 @@ class Gen:
             st["out"] = self.new_slot("R")
         elif fn == "isa":
             a["name"] = g.choice(["PSD", "SelfAdjoint", "Unitary", "Stiefel"])
+        if st["fn"] == "diag_hutch" and g.random() < 0.5:
+            kw = {k: v for k, v in a.items() if k not in ("A", "k")}
+            for k in list(kw):
+                a.pop(k)
+            a["alg"] = self.algobj("Hutch", kw)
         if isinstance(a.get("alg"), str) and a["alg"] in ("CG", "GMRES", "Lanczos", "Arnoldi", "Auto") and g.random() < 0.35:
             kw = dict(a.pop("akw", None) or {})
             for extra, field in (("x0", "x0"), ("P", "P"), ("v0", "start_vector")):
@@ -638,6 +658,16 @@ ALPHABET = {
     "alg_H_gen": [PRE["Gn"], mk("a_H", {"k": "H", "of": {"k": "ref", "slot": "Gn"}})],
     "ann_psd": [PRE["D"], mk("a_psd", {"k": "ann", "name": "PSD", "of": {"k": "ref", "slot": "D"}})],
     "ann_unitary": [PRE["Gn"], mk("a_uni", {"k": "ann", "name": "Unitary", "of": {"k": "ref", "slot": "Gn"}})],
+    "ann_psd_over_sa": [mk("Sa", _sa(SP)), mk("a_psd_sa", {"k": "ann", "name": "PSD", "of": {"k": "ref", "slot": "Sa"}})],
+    "ann_uni_over_stiefel": [mk("St", {"k": "ann", "name": "Stiefel", "of": {"k": "perm", "n": N, "seed": 22}}),
+                             mk("a_uni_st", {"k": "ann", "name": "Unitary", "of": {"k": "ref", "slot": "St"}})],
+    "ann_sa_over_psd": [PRE["P"], mk("a_sa_psd", {"k": "ann", "name": "SelfAdjoint", "of": {"k": "ref", "slot": "P"}})],
+    "T_of_annotated": [mk("Sa", _sa(SP)), mk("a_T_sa", {"k": "transpose_cls", "of": {"k": "ref", "slot": "Sa"}})],
+    "algobj_hutch_kron": [mk("kron_l", {"k": "kron", "args": [G2, I2]}),
+                          {"op": "mkalg", "name": "g_h", "cls": "Hutch", "kw": {"tol": 0.2, "max_iters": 2, "key": 7}},
+                          call("trace_hutch", A=S("kron_l"), alg={"algobj": "g_h"})],
+    "algobj_hutch_generic": [PRE["G"], {"op": "mkalg", "name": "g_h", "cls": "Hutch", "kw": {"tol": 0.2, "max_iters": 2, "key": 7}},
+                             call("diag_hutch", A=S("G"), alg={"algobj": "g_h"})],
     "to_f4": [PRE["D"], mk("a_to", {"k": "to", "of": {"k": "ref", "slot": "D"}, "dtype": "f4"})],
     "getitem": [PRE["D"], mk("a_gi", {"k": "getitem", "of": {"k": "ref", "slot": "D"}, "s0": [0, 2], "s1": None})],
     "nodisp": [PRE["P"], mk("a_nd", {"k": "no_dispatch", "of": {"k": "ref", "slot": "P"}})],
@@ -697,13 +727,51 @@ ALPHABET = {
     "import_precond": [{"op": "import", "module": "cola.linalg.preconditioning.preconditioners"}],
 }
 
+# ---- products (right, left; vector, C- and Fortran-ordered blocks) on every operator kind -------------
+KINDS = {  # name -> (slot, recipe, rows, cols)
+    "dense": ("D", DN, N, N), "generic": ("Gn", GE2, N, N), "identity": ("I", ID, N, N), "diag": ("Dg", DG, N, N),
+    "tridiag": ("T3", {"k": "tridiag", "n": N, "seed": 21, "symm": False}, N, N),
+    "perm": ("Pm", {"k": "perm", "n": N, "seed": 22}, N, N),
+    "tri": ("Tr", {"k": "tri", "n": N, "seed": 23}, N, N),
+    "sparse": ("Sp", {"k": "sparse", "n": N, "seed": 24}, N, N),
+    "kernel": ("Ke", {"k": "kernel", "n": N, "seed": 25, "bs1": 1, "bs2": 2}, N, N),
+    "householder": ("Hh", {"k": "householder", "n": N, "seed": 26}, N, N),
+    "scalar": ("Sc", {"k": "scalar", "c": 2.0, "n": N}, N, N),
+    "sum": ("sum_b", {"k": "sum", "args": [DN, DG]}, N, N),
+    "prod": ("prod_b", {"k": "product", "args": [DN, DN2]}, N, N),
+    "kron": ("kron_b", {"k": "kron", "args": [D2, D2]}, 4, 4),
+    "kronsum": ("kronsum_b", {"k": "kronsum", "args": [D2, D2]}, 4, 4),
+    "bd": ("bd_b", {"k": "blockdiag", "args": [D2, DG], "mult": [2, 1]}, 7, 7),
+    "tr": ("tr_b", {"k": "transpose_cls", "of": DN}, N, N),
+    "adj": ("adj_b", {"k": "adjoint_cls", "of": DG}, N, N),
+    "sl": ("sl_b", {"k": "sliced_cls", "of": DN, "s0": [0, 2], "s1": [0, 2]}, 2, 2),
+    "cat": ("cat_b", {"k": "concat", "args": [DN, DG], "axis": 0}, 6, N),
+    "psd": ("P", _psd(SP), N, N),
+}
+for _k, (_slot, _r, _rows, _cols) in KINDS.items():
+    ALPHABET["mv_" + _k] = [mk(_slot, _r), call("matvec", A=S(_slot), x=arr([_cols], "f8", 31))]
+    ALPHABET["mmf_" + _k] = [mk(_slot, _r), call("matvec", A=S(_slot), x=arr([_cols, 2], "f8", 32, layout="f"))]
+    ALPHABET["rmv_" + _k] = [mk(_slot, _r), call("rmatvec", A=S(_slot), x=arr([_rows], "f8", 33))]
+    ALPHABET["rmm_" + _k] = [mk(_slot, _r), call("rmatvec", A=S(_slot), x=arr([2, _rows], "f8", 34))]
+ALPHABET.update({
+    "rsolve_chol": [PRE["P"], call("rsolve", A=S("P"), b=B, alg="Cholesky")],
+    "rsolve_lu": [PRE["D"], call("rsolve", A=S("D"), b=arr([2, N], "f8", 35))],
+    "rmv_inv_tri": [mk("Tr", {"k": "tri", "n": N, "seed": 23}), call("inv", out="R_tri", A=S("Tr")),
+                    call("rmatvec", A=S("R_tri"), x=B)],
+    "rmm_inv_tri": [mk("Tr", {"k": "tri", "n": N, "seed": 23}), call("inv", out="R_tri", A=S("Tr")),
+                    call("rmatvec", A=S("R_tri"), x=arr([2, N], "f8", 35))],
+    "mmf_invT_tri": [mk("Tr", {"k": "tri", "n": N, "seed": 23}), call("inv", out="R_tri", A=S("Tr")),
+                     mk("R_triT", {"k": "T", "of": {"k": "ref", "slot": "R_tri"}}),
+                     call("matvec", A=S("R_triT"), x=arr([N, 2], "f8", 36, layout="f"))],
+})
+
 # reduced alphabet for the length-3 level (one representative per mechanism)
 ALPHABET3 = ["mk_dense", "mk_identity", "mk_generic", "mk_probe", "sum_b", "sum_l", "prod_b", "prod_l", "kron_b", "kron_l",
              "bd_b", "bd_l", "tr_l", "tr_b", "sl_b", "sl_l", "sumsl_b", "sumsl_l", "prodsl_b", "prodsl_l", "alg_ata",
-             "ann_psd", "to_f4", "matvec", "rmatvec_g", "solve_chol", "solve_cg", "solve_cg_raise",
+             "ann_psd", "ann_psd_over_sa", "to_f4", "matvec", "rmatvec_g", "solve_chol", "solve_cg", "solve_cg_raise",
              "use_inv_cg", "use_inv_cg_X0", "use_sqrt_B", "use_sqrt_X0", "matvec_sum_B", "matvec_sum_X0", "eig_lanczos",
              "cg_reenter", "flatten_sum", "hutch", "import_precond", "algobj_cg_probe", "algobj_cg_block_raise",
-             "algobj_cg_dense_of_inv_raise"]
+             "algobj_cg_dense_of_inv_raise", "rsolve_chol", "rmv_inv_tri", "algobj_hutch_kron"]
 
 
 def history(letters):
@@ -718,14 +786,21 @@ def history(letters):
             "steps": steps}
 
 
-def sweep_histories(maxlen, full_pairs=True):
+def quick_pair_alphabet(seed, size=32):
+    """Quick tier: all ordered pairs over a `size`-letter sub-alphabet of the reduced alphabet, rotated by the seed."""
+    names = sorted(ALPHABET3)
+    off = (seed * 5) % len(names)
+    return sorted((names + names)[off:off + size])
+
+
+def sweep_histories(maxlen, full_pairs=True, seed=0):
     """length 1: full alphabet; length 2: full alphabet (thorough) or reduced alphabet (quick);
     length 3: reduced alphabet."""
     names = sorted(ALPHABET)
     for L in names:
         yield (L, )
     if maxlen >= 2:
-        two = names if full_pairs else sorted(ALPHABET3)
+        two = names if full_pairs else quick_pair_alphabet(seed)
         for a, b in itertools.product(two, two):
             yield (a, b)
     if maxlen >= 3:
@@ -753,7 +828,7 @@ def phase_sweep(run, pool, maxlen):
 
     jobs = ({"id": i, "kind": "program", "program": history(L), "letters": list(L), "want_program": False,
              "want_results": True, "deadline": 240, "run_seed": "sweep:" + "+".join(L)}
-            for i, L in enumerate(sweep_histories(maxlen, full_pairs=maxlen >= 3)))
+            for i, L in enumerate(sweep_histories(maxlen, full_pairs=maxlen >= 3, seed=run.seed)))
     pool.run(jobs, on, stop_flag=lambda: len(run.violations) >= 5 or len(run.harness) >= 5 or len(conflicts) >= 3)
     for key, a, b in conflicts[:2]:
         prog = history(b[1])
@@ -767,7 +842,7 @@ def phase_sweep(run, pool, maxlen):
         "alphabet_size": len(ALPHABET), "reduced_alphabet_size": len(ALPHABET3), "max_length": maxlen, "histories": n[0],
         "exhaustive": True,
         "exhaustive_over": ("all 1-letter histories of the full alphabet, all 2-letter histories of the %s alphabet%s"
-                            % ("full" if maxlen >= 3 else "reduced", ", all 3-letter histories of the reduced alphabet"
+                            % ("full" if maxlen >= 3 else "seed-rotated 32-letter sub-", ", all 3-letter histories of the reduced alphabet"
                                if maxlen >= 3 else "")), "distinct_calls_compared_across_histories": len(table),
         "history_independence_conflicts": len(conflicts), "wall_s": round(time.time() - t, 1)}
     run.stats["sweep_histories"] += n[0]
